@@ -77,7 +77,8 @@ def _strip_comments(text):
 
 def grep_forbidden():
     hits = []
-    for base, _, files in os.walk(os.path.join(LEAN, "TorrentVerif")):
+    walk = list(os.walk(os.path.join(LEAN, "TorrentVerif"))) + list(os.walk(os.path.join(LEAN, "Gen")))
+    for base, _, files in walk:
         for fn in files:
             if not fn.endswith(".lean"):
                 continue
@@ -95,6 +96,8 @@ def _sources_mtime():
     for base, dirs, files in os.walk(LEAN):
         if ".lake" in dirs:
             dirs.remove(".lake")
+        if base == LEAN and "Gen" in dirs:
+            dirs.remove("Gen")          # built separately by ensure_gen
         for fn in files:
             if fn.endswith((".lean", ".toml")):
                 latest = max(latest, os.path.getmtime(os.path.join(base, fn)))
@@ -149,6 +152,235 @@ def ensure_built(force=False):
     return json.load(open(AUDIT))["decls"]
 
 
+GEN_AUDIT = """import Lean
+{imports}
+open Lean Elab Command
+def auditKind (c : ConstantInfo) : String :=
+  match c with
+  | .thmInfo _ => "theorem"
+  | .defnInfo _ => "def"
+  | .axiomInfo _ => "axiom"
+  | .opaqueInfo _ => "opaque"
+  | _ => "other"
+elab "#audit_gen" : command => do
+  let env ← getEnv
+  let mut names : Array Name := #[]
+  for (n, _) in env.constants.map₁.toList do
+    if (`Gen.Lifted).isPrefixOf n || (`Gen.Tie).isPrefixOf n then
+      if !n.isInternalDetail then names := names.push n
+  for n in names.qsort (fun a b => a.toString < b.toString) do
+    let some c := env.find? n | continue
+    let axs ← liftCoreM (collectAxioms n)
+    let axs := axs.qsort (fun a b => a.toString < b.toString)
+    IO.println s!"AUDIT {{n}} {{auditKind c}} {{",".intercalate (axs.toList.map toString)}}"
+#audit_gen
+"""
+
+
+def ensure_gen():
+    """Translate the pure helper functions of /repo's *current* source to Lean
+    (harness/pytrans.py), build the hand-written tie theorems against the result and audit
+    them.  Returns {function: {ok, stage, detail, digest, theorems}}; never raises for a
+    refused translation or a tie that no longer checks (that is a broken correspondence, to
+    be judged by the caller), only for broken machinery."""
+    from harness import pytrans
+    ensure_built()
+    gen_dir = os.path.join(LEAN, "Gen")
+    src_dir = os.path.join(gen_dir, "Src")
+    os.makedirs(src_dir, exist_ok=True)
+    texts, status = {}, {}
+    for fn in pytrans.TARGETS:
+        try:
+            texts[fn], digest = pytrans.translate_one(fn, REPO)
+            status[fn] = {"ok": True, "stage": "", "detail": "", "digest": digest,
+                          "theorems": []}
+        except (pytrans.TranslationError, SyntaxError, OSError) as exc:
+            status[fn] = {"ok": False, "stage": "translate", "detail": str(exc)[:300],
+                          "digest": "", "theorems": []}
+    h = hashlib.sha256()
+    for fn in sorted(pytrans.TARGETS):
+        h.update(texts.get(fn, "<refused>").encode())
+    for base, _, files in os.walk(gen_dir):
+        if os.path.basename(base) == "Src":
+            continue
+        for name in sorted(files):
+            if name.endswith(".lean"):
+                h.update(open(os.path.join(base, name), "rb").read())
+    h.update(str(os.path.getmtime(os.path.join(BUILD, "built.stamp"))).encode())
+    key = h.hexdigest()
+    cache = os.path.join(BUILD, "gen_status.json")
+    try:
+        old = json.load(open(cache))
+        if old.get("key") == key:
+            return old["status"]
+    except (OSError, ValueError):
+        pass
+    import fcntl
+    lock = open(os.path.join(BUILD, "build.lock"), "w")
+    fcntl.flock(lock, fcntl.LOCK_EX)
+    try:
+        for fn in pytrans.TARGETS:
+            path = os.path.join(src_dir, fn + ".lean")
+            if fn in texts:
+                if not os.path.exists(path) or open(path, encoding="utf8").read() != texts[fn]:
+                    with open(path, "w", encoding="utf8") as fd:
+                        fd.write(texts[fn])
+            elif os.path.exists(path):
+                os.remove(path)
+        good = []
+        for fn in pytrans.TARGETS:
+            if not status[fn]["ok"]:
+                continue
+            proc = subprocess.run(["lake", "build", f"Gen.Tie.{fn}"], cwd=LEAN,
+                                  capture_output=True, text=True)
+            if proc.returncode != 0:
+                errs = [l for l in (proc.stdout + proc.stderr).splitlines()
+                        if l.startswith("error:") and "Lean exited" not in l
+                        and "build failed" not in l]
+                where = ""
+                m = re.search(r"Gen/Tie/[\w.]+:(\d+):", "\n".join(errs))
+                if m:      # name the enclosing theorem
+                    line_no = int(m.group(1))
+                    lines = open(os.path.join(gen_dir, "Tie", fn + ".lean"),
+                                 encoding="utf8").read().splitlines()
+                    for i in range(min(line_no, len(lines)) - 1, -1, -1):
+                        mm = re.match(r"(theorem|example|def)\s*([\w.']*)", lines[i])
+                        if mm:
+                            where = (mm.group(2) or "example") + ": "
+                            break
+                stage = "translate" if any("Gen/Src/" in e for e in errs) else "tie"
+                status[fn].update(ok=False, stage=stage,
+                                  detail=(where + " | ".join(errs))[:500])
+            else:
+                good.append(fn)
+        if good:
+            audit_src = os.path.join(BUILD, "GenAudit.lean")
+            with open(audit_src, "w", encoding="utf8") as fd:
+                fd.write(GEN_AUDIT.format(
+                    imports="\n".join(f"import Gen.Tie.{fn}" for fn in good)))
+            proc = subprocess.run(["lake", "env", "lean", audit_src], cwd=LEAN,
+                                  capture_output=True, text=True)
+            if proc.returncode != 0:
+                raise MachineryError("audit of the translated tie failed: "
+                                     + (proc.stdout + proc.stderr)[-800:])
+            decls = {}
+            for line in proc.stdout.splitlines():
+                if line.startswith("AUDIT "):
+                    _, name, kind, axioms = (line.split(" ", 3) + [""])[:4]
+                    decls[name] = (kind, [a for a in axioms.split(",") if a])
+            for name, (kind, axioms) in decls.items():
+                if kind == "theorem" and not set(axioms) <= STD_AXIOMS:
+                    raise MachineryError(f"non-standard axioms in {name}: {axioms}")
+            for fn in good:
+                text = open(os.path.join(gen_dir, "Tie", fn + ".lean"), encoding="utf8").read()
+                mine = [n for n in re.findall(r"^theorem\s+([\w.']+)", text, re.M)]
+                status[fn]["theorems"] = sorted(
+                    n for n, (kind, _) in decls.items()
+                    if kind == "theorem" and n.split(".")[-1] in mine)
+                if not status[fn]["theorems"]:
+                    raise MachineryError(f"no audited tie theorems for {fn}")
+        with open(cache + ".tmp", "w") as fd:
+            json.dump({"key": key, "status": status}, fd, indent=1)
+        os.replace(cache + ".tmp", cache)
+    finally:
+        fcntl.flock(lock, fcntl.LOCK_UN)
+        lock.close()
+    return status
+
+
+def _probe_translated(fn):
+    """Direct differential probe of one helper against what its `Impl.*` model computes (the
+    closed forms are theorems: `np2_eq`, `gplLoop_spec`, `normalize_accepts_iff`, `merkleIter`
+    is pairwise reduction).  Returns a differing input or None."""
+    use_repo()
+    import importlib
+    from harness import pytrans
+    rel = pytrans.TARGETS[fn][0]
+    mod = importlib.import_module(rel[:-3].replace("/", "."))
+    f = getattr(mod, fn)
+    rng = random.Random(20260927)
+    if fn == "next_power_2":
+        dom = list(range(0, 5000)) + [2 ** k + d for k in range(12, 70) for d in (-1, 0, 1)] \
+            + [rng.randrange(1, 2 ** 40) for _ in range(3000)]
+        for n in dom:
+            want = 1 if n <= 1 else 1 << (n - 1).bit_length()
+            if f(n) != want:
+                return {"value": n, "got": f(n), "model": want}
+    elif fn == "get_piece_length":
+        dom = list(range(0, 2000)) + [1000 * 2 ** k + d for k in range(10, 30) for d in (-1, 0, 1)] \
+            + [2 ** k + d for k in range(0, 80) for d in (-1, 0, 1)] \
+            + [rng.randrange(0, 2 ** 45) for _ in range(5000)]
+        for n in dom:
+            k = 14
+            while n > 1000 * 2 ** k and k < 24:
+                k += 1
+            if f(n) != 2 ** k:
+                return {"size": n, "got": f(n), "model": 2 ** k}
+    elif fn == "normalize_piece_length":
+        dom = list(range(-40, 70000)) + [2 ** k + d for k in range(0, 5000, 7) for d in (-1, 0, 1)] \
+            + [-(2 ** k) for k in range(0, 40)] + [rng.randrange(0, 2 ** 64) for _ in range(3000)]
+        for n in dom:
+            if 13 < n < 26:
+                want = 2 ** n
+            elif n >= 16384 and n & (n - 1) == 0:
+                want = n
+            else:
+                want = None
+            try:
+                got = f(n)
+            except Exception as exc:       # noqa: BLE001
+                got = None if type(exc).__name__ == "PieceLengthValueError" else repr(exc)
+            if got != want:
+                return {"piece_length": n if n < 2 ** 70 else f"2**{n.bit_length() - 1}+…",
+                        "got": got, "model": want}
+    elif fn == "merkle_root":
+        def ref(l):
+            if not l:
+                return l
+            while len(l) > 1:
+                l = [hashlib.sha256(l[i] + l[i + 1]).digest() for i in range(0, len(l) - 1, 2)]
+            return l[0]
+        for n in list(range(0, 70)) + [127, 128, 129, 255, 256, 257, 1024, 2048, 4096, 5000]:
+            blocks = [hashlib.sha256(bytes([i % 251, n % 251])).digest() for i in range(n)]
+            if f(list(blocks)) != ref(list(blocks)):
+                return {"blocks": n}
+    return None
+
+
+def translated_tie(run, functions):
+    """Gate of a check on the translated functions it leans on.  Records the tie in the
+    evidence.  A tie theorem that no longer checks against the translation of the current
+    source is a broken correspondence (a direct probe, the caller's sampled comparison and the
+    widened search then look for a failing input; without one the verdict is
+    `no-failing-input-found`).  A *refused* translation (the source left the fragment the
+    translator understands) says nothing about behaviour: the function is then tied by
+    sampling only — the direct probe below plus the check's own comparison — and the evidence
+    says so."""
+    status = ensure_gen()
+    out = {}
+    for fn in functions:
+        st = status[fn]
+        out[fn] = {"source_digest": st["digest"], "tie_checked": st["ok"],
+                   "theorems": [t.split("Gen.")[-1] for t in st["theorems"]]}
+        if st["ok"]:
+            continue
+        out[fn]["broken"] = f"{st['stage']}: {st['detail']}"
+        try:
+            diff = _probe_translated(fn)
+        except Exception as exc:        # noqa: BLE001
+            diff = {"probe_raised": repr(exc)[:200]}
+        out[fn]["direct_probe"] = diff or "no difference from the model on the probe domain"
+        if st["stage"] == "tie" or diff:
+            run.fail("impl-vs-model", {"translated_function": fn, "input": diff},
+                     {"correspondence": f"translated tie of {fn} "
+                                        f"(lean/Gen/Tie/{fn}.lean) — {st['stage']}: "
+                                        f"{st['detail']}"})
+        else:
+            out[fn]["fallback"] = "translation refused; tied by the sampled correspondence only"
+    run.extra["translated_from_source"] = out
+    return status
+
+
 def kernel_recheck():
     """Thorough tier: replay every compiled module of the project through `leanchecker`, the
     toolchain's independent re-checker of .olean files. Returns a short description."""
@@ -160,6 +392,14 @@ def kernel_recheck():
             if fn.endswith(".lean"):
                 rel = os.path.relpath(os.path.join(base, fn), LEAN)[:-5]
                 mods.append(rel.replace(os.sep, "."))
+    try:
+        gen = ensure_gen()
+        mods += ["Gen.Prelude", "Gen.Lemmas"]
+        for fn, st in gen.items():
+            if st["ok"]:
+                mods += [f"Gen.Src.{fn}", f"Gen.Tie.{fn}"]
+    except MachineryError:
+        raise
     proc = subprocess.run(["lake", "env", "leanchecker"] + mods, cwd=LEAN, capture_output=True,
                           text=True)
     if proc.returncode != 0:
@@ -503,17 +743,31 @@ class Run:
             note = json.load(open(os.path.join(VERIF, "claims.json")))[self.pid]["note"]
         except Exception:
             note = ""
+        tf = self.extra.get("translated_from_source") or {}
+        tie_names = []
+        for fn, v in tf.items():
+            if v["tie_checked"]:
+                tie_names += [f"Gen.{t}" for t in v["theorems"]]
+        obligations += len(tie_names)
+        discharged += len(tie_names)
+        names = names + tie_names
         coverage = {
             "obligations": obligations,
             "discharged": discharged,
-            "checker_cmd": "cd lean && lake build TorrentVerif && lake env lean Audit.lean",
+            "checker_cmd": "cd lean && lake build TorrentVerif && lake env lean Audit.lean"
+                           + ("  # plus, after harness/pytrans.py wrote lean/Gen/Src: "
+                              "lake build Gen" if tf else ""),
             "trusted_base": [
                 "Lean 4.33 kernel; axioms of every property theorem within "
                 "{propext, Classical.choice, Quot.sound} (audited this run)",
                 "hand-written Impl.* models tied to the Python code by the sampled "
                 "correspondence reported below",
                 "SHA-1/SHA-256 uninterpreted in all theorems",
-            ] + ([note] if note else []),
+            ] + (["harness/pytrans.py (Python->Lean translator, ~350 lines) and lean/Gen/Prelude.lean "
+                  "(reading of int &, <<, **, int/int > int, the pairing idiom) for the functions "
+                  "under translated_from_source: their tie to Impl.* is a theorem re-checked "
+                  "against the current source on this run, not a sample"] if tie_names else [])
+            + ([note] if note else []),
             "theorems": names,
             "evaluations": self.evaluations,
             "distinct_nontrivial": len(self.nontrivial_keys),
